@@ -110,7 +110,15 @@ type vRes struct {
 	Msg string `json:"msg,omitempty"`
 }
 
+// vMerge is the mergeability answer for one feature tree and what verification says once each recorder records the merge.
+type vMerge struct {
+	Answer   string          `json:"answer"` // nosig | sig | no
+	Msg      string          `json:"msg,omitempty"`
+	Verifies map[string]bool `json:"verifies"`
+}
+
 type vObs struct {
+	Merge  map[string]vMerge          `json:"merge,omitempty"` // tree -> ...
 	Full   map[string]vRes            `json:"full"`
 	Latest map[string]vRes            `json:"latest"`
 	From   map[string]map[string]vRes `json:"from"`           // ref -> position -> result of VerifyRefFromEntry
@@ -475,6 +483,73 @@ func (r *vRepo) verifyMode(ref string, from int) (res vRes) {
 	return out
 }
 
+func (r *vRepo) clone() *vRepo {
+	c := *r
+	c.s = r.s.Clone()
+	c.h = c.s.Handle()
+	c.targets = append([]githash.Hash{}, r.targets...)
+	c.ids = append([]githash.Hash{}, r.ids...)
+	c.trees = map[int]githash.Hash{}
+	for k, v := range r.trees {
+		c.trees[k] = v
+	}
+	return &c
+}
+
+// mergeability: predict for a feature commit carrying `tree` on top of main's latest unskipped state, then let every
+// recorder record the merge on a copy and verify it
+func (r *vRepo) mergeObs(scn vScn, tree int) vMerge {
+	out := vMerge{Verifies: map[string]bool{}}
+	from := 0
+	skipped := map[int]bool{}
+	for _, e := range scn.Log {
+		if e.K == "ann" {
+			for _, t := range e.Tg {
+				skipped[t] = true
+			}
+		}
+	}
+	for i, e := range scn.Log {
+		if (e.K == "ref" && e.Ref == "main" && !skipped[i+1]) || (e.K == "prop" && e.Ref == "main") {
+			from = i + 1
+		}
+	}
+	var parents []githash.Hash
+	if from > 0 {
+		parents = []githash.Hash{r.targets[from]}
+	}
+	feature, err := r.s.MakeCommit(r.tree(tree), parents, fmt.Sprintf("feature commit with tree %d", tree), nil)
+	if err != nil {
+		out.Answer, out.Msg = "error", err.Error()
+		return out
+	}
+	func() {
+		defer func() {
+			if x := recover(); x != nil {
+				out.Answer, out.Msg = "panic", fmt.Sprint(x)
+			}
+		}()
+		need, err := policy.NewPolicyVerifier(r.s.Handle()).VerifyMergeableForCommit(context.Background(), fullRef("main"), feature)
+		switch {
+		case err != nil:
+			out.Answer, out.Msg = "no", err.Error()
+		case need:
+			out.Answer = "sig"
+		default:
+			out.Answer = "nosig"
+		}
+	}()
+	for _, rec := range []string{"p1", "p2", "p3", "kU", "none"} {
+		c := r.clone()
+		if err := c.add(len(scn.Log)+1, vEntry{K: "ref", Ref: "main", S: rec, Tree: tree, Par: from}); err != nil {
+			out.Msg += " record: " + err.Error()
+			continue
+		}
+		out.Verifies[rec] = c.verifyMode("main", 0).Res == "ok"
+	}
+	return out
+}
+
 func runVerifyScn(scn vScn, pols map[string]vPolicy, strip map[string]string, seed int64) (obs vObs, err error) {
 	if scn.Fam == "global" && strip != nil {
 		twin := vScn{Fam: "twin", Log: append([]vEntry{}, scn.Log...)}
@@ -496,6 +571,20 @@ func runVerifyScn(scn vScn, pols map[string]vPolicy, strip map[string]string, se
 		}
 	}
 	obs.Full, obs.Latest, obs.From = map[string]vRes{}, map[string]vRes{}, map[string]map[string]vRes{}
+	if scn.Fam == "merge" {
+		obs.Merge = map[string]vMerge{}
+		hasMain := false
+		for _, e := range scn.Log {
+			if (e.K == "ref" || e.K == "prop") && e.Ref == "main" {
+				hasMain = true
+			}
+		}
+		if hasMain {
+			for _, t := range []int{1, 2} {
+				obs.Merge[fmt.Sprint(t)] = r.mergeObs(scn, t)
+			}
+		}
+	}
 	modes := scn.Fam == "chain" || scn.Fam == "cache"
 	for _, ref := range []string{"main", "feat"} {
 		has := false
